@@ -102,6 +102,16 @@ GenLet(env, at) ==
       b == Bind(name, at + 2, ty, e, mut, IF mut THEN "var" ELSE "let")
   IN R(head \o e.toks \o <<Tk("\n")>> \o Show(b), Append(env, b), e.val \o "\n")
 
+\* let (N1, N2) = <(int, string) expression>: both names are (re)bound in the CURRENT scope, often shadowing earlier
+\* bindings of the same scope; the initialiser is resolved before them
+GenLetTuple(env, at) ==
+  LET n1 == Pick(Names)  n2 == Pick(Names \ {n1})
+      e == Expr("(int, string)", env, at + 5)
+      p1 == Bind(n1, at + 2, "int", E(<<>>, ToString(e.num), e.num, ""), FALSE, "let")
+      p2 == Bind(n2, at + 4, "string", E(<<>>, e.str, 0, e.str), FALSE, "let")
+  IN R(<<Tk("let ("), Dc(n1, "int", "let"), Tk(", "), Dc(n2, "string", "let"), Tk(") = ")>> \o e.toks \o <<Tk("\n")>> \o Show(p1) \o Show(p2),
+       env \o <<p1, p2>>, p1.val \o "\n" \o p2.val \o "\n")
+
 GenPrint(env, at) ==
   LET ty == Pick(Printable \cup {"bool"})
       e == Expr(ty, env, at + 1)
@@ -212,7 +222,8 @@ GenFn(env, at) ==
 
 GenStmt(env, at, depth) ==
   LET k == Pick(1..20) IN
-  IF k <= 6 THEN GenLet(env, at)
+  IF k <= 5 THEN GenLet(env, at)
+  ELSE IF k <= 6 THEN GenLetTuple(env, at)
   ELSE IF k <= 10 THEN GenPrint(env, at)
   ELSE IF k <= 11 THEN GenAssign(env, at)
   ELSE IF depth >= MaxDepth THEN GenPrint(env, at)
